@@ -1,18 +1,19 @@
-\* random deep plans with failing collection starts
+\* plans with concurrent collection starts (as built, at most two calls in flight): every history, counts 1..3 x 1..3, init + 4 steps
+\* (filtered to those with an offerstart)
 SPECIFICATION Spec
 CHECK_DEADLOCK FALSE
 INVARIANTS PlanOut
 CONSTANTS
-  MaxS = 4
-  MaxT = 4
+  MaxS = 3
+  MaxT = 3
   Pairs <- AllPairs
   Namings = {"distinct", "same"}
-  MaxOps = 16
+  MaxOps = 5
   HandoffChecksCapacity = FALSE
   ForwardCountedOnce = FALSE
   SourceKeyFromMapping = FALSE
-  WithFail = TRUE
-  MaxFlight = 0
+  WithFail = FALSE
+  MaxFlight = 2
   OfferAtomic = TRUE
   WithDropped = FALSE
   DroppedChecksQuota = TRUE
